@@ -289,6 +289,12 @@ Fixpoint set_nth {A} (k : nat) (v : A) (l : list A) : list A :=
   | x :: r, S k' => x :: set_nth k' v r
   end.
 
+Definition map_ok (g : list nat -> list nat) (x : store * res (list nat)) : store * res (list nat) :=
+  match x with
+  | (h2, Ok out) => (h2, Ok (g out))
+  | (h2, Err e) => (h2, Err e)
+  end.
+
 Fixpoint eq_loop (trials : list fn) (h : store) (refs : list nat) : store * res (list nat) :=
   match refs with
   | [] => (h, Ok [])
@@ -304,17 +310,10 @@ Fixpoint eq_loop (trials : list fn) (h : store) (refs : list nat) : store * res 
           | BUnion l =>
               match expand i' l with
               | Err e => (h1, Err e)
-              | Ok blk =>
-                  match eq_loop trials (h1 ++ blk) rest with
-                  | (h2, Err e) => (h2, Err e)
-                  | (h2, Ok out) => (h2, Ok (seq (length h1) (length blk) ++ out))
-                  end
+              | Ok blk =>                                  (* new objects, appended to the store *)
+                  map_ok (app (seq (length h1) (length blk))) (eq_loop trials (h1 ++ blk) rest)
               end
-          | _ =>
-              match eq_loop trials h1 rest with
-              | (h2, Err e) => (h2, Err e)
-              | (h2, Ok out) => (h2, Ok (r :: out))        (* newbc += [i] : the same object *)
-              end
+          | _ => map_ok (cons r) (eq_loop trials h1 rest)   (* newbc += [i] : the same object *)
           end
       end
   end.
